@@ -10,7 +10,8 @@
 //   1  lexemes as JSON (echoed into the Begin event, not interpreted here)
 //   2  stream: comma separated parts  h<hex> | z<count> (count octets 'Z')
 //   3  eof: 1 = the peer closes after the last octet
-//   4  header table: kind:arg:name:valuehex;...   (to report which generated fields the application was handed)
+//   4  header table: kind:arg:name:valuehex;...   (to report which generated fields the application was handed;
+//                                                 value z<count> = count octets 'Z')
 //   5  data table:   id:hex;...                    (to report the body as generated DATA lexemes; 99 = anything else)
 //   6  cuts: S = no cut, every single cut, every octet alone;  P = S + every pair of cuts;
 //            L:<c1,c2;c3;;...> explicit cut sets;  R:<n>:<seed> n random cut sets of 1..4 cuts (plus S if short)
@@ -138,7 +139,10 @@ static bool parseCase(const std::string &line, Case &c)
   for (auto &e : vf::split(trim(f[4]), ';'))
   {
     auto p = vf::split(e, ':');
-    if (p.size() == 4) c.hdrs.push_back({p[0], atol(p[1].c_str()), p[2], unhex(p[3])});
+    // value: hex, or z<count> = count octets 'Z' (the big header / trailer fields)
+    if (p.size() == 4)
+      c.hdrs.push_back({p[0], atol(p[1].c_str()), p[2],
+                        !p[3].empty() && p[3][0] == 'z' ? std::string((size_t)atol(p[3].c_str() + 1), 'Z') : unhex(p[3])});
   }
   for (auto &e : vf::split(trim(f[5]), ';'))
   {
